@@ -195,6 +195,22 @@ def partialdep_specs() -> T.List[Spec]:
     return out
 
 
+def pch_specs() -> T.List[Spec]:
+    """A precompiled header (c_pch:) that includes a build-time generated header: the header reaches the target as a source
+    (custom_target, custom-target chain, generator()) or through declare_dependency(sources:); the C file itself includes
+    nothing, so only the PCH step needs the generated header."""
+    out: T.List[Spec] = []
+    for prod in ('H', 'HK', 'Ghdr'):
+        for rel in (('src_pch', 'dep_pch') if prod != 'Ghdr' else ('src_pch',)):
+            for cons in (('E', 'plain'), ('L', 'static'), ('L', 'shared')):
+                spec: T.List[Node] = [Node('G', 'hdr', ())] if prod == 'Ghdr' else [Node('H', 'plain', ())]
+                if prod == 'HK':
+                    spec.append(Node('K', 'plain', ((0, 'input'),)))
+                spec.append(Node(cons[0], cons[1], ((len(spec) - 1, rel),)))
+                out.append(tuple(spec))
+    return out
+
+
 def placement_ok(spec: Spec, placement: str) -> bool:
     """'sub' puts H/S/G/C/K into sub/ which is entered before the root targets: not possible when one of them
     consumes a root target (K <- X)."""
@@ -399,6 +415,7 @@ def render(spec: Spec, placement: str = 'root', odd_names: bool = False, with_te
                 files[d + me + '.stamp'] = 'stamp\n'
         elif n.kind in 'LE':
             incs, decls, terms = [], [], []
+            pch_incs: T.List[str] = []
             srcs = ["'%s.c'" % me]
             kw: T.Dict[str, T.List[str]] = {}
             for p, rel in n.uses:
@@ -408,12 +425,12 @@ def render(spec: Spec, placement: str = 'root', odd_names: bool = False, with_te
                     # consumer C files are in root or sub; includes are relative to the build root / current build dir
                     if loc == 'sub' and inc.startswith('sub/'):
                         inc = inc[4:]
-                    incs.append('#include "%s"\n' % inc)
+                    (pch_incs if rel.endswith('_pch') else incs).append('#include "%s"\n' % inc)
                 decls.append(c_decl(p))
                 terms.append(c_term(p))
-                if rel == 'src':
+                if rel in ('src', 'src_pch'):
                     srcs.append(ref(p))
-                elif rel == 'dep':
+                elif rel in ('dep', 'dep_pch'):
                     out.append("%s_dep%d = declare_dependency(sources: %s)" % (me, p, ref(p)))
                     kw.setdefault('dependencies', []).append('%s_dep%d' % (me, p))
                 elif rel in ('dep_partial', 'dep_partial_nested'):
@@ -456,6 +473,9 @@ def render(spec: Spec, placement: str = 'root', odd_names: bool = False, with_te
                 fn = 'executable'
             files[d + me + '.c'] = body
             kws = ''.join(', %s: [%s]' % (k, ', '.join(v)) for k, v in kw.items())
+            if pch_incs:
+                files[d + 'pch/' + me + '_pch.h'] = ''.join(pch_incs)
+                kws += ", c_pch: 'pch/%s_pch.h'" % me
             if install:
                 kws += ', install: true'
             if loc == 'root' and placement == 'sub':
